@@ -34,6 +34,7 @@ import (
 	"connectrpc.com/conformance/internal"
 	"connectrpc.com/conformance/internal/compression"
 	conformancev1 "connectrpc.com/conformance/internal/gen/proto/go/connectrpc/conformance/v1"
+	"connectrpc.com/conformance/internal/tracer"
 	"connectrpc.com/conformance/internal/verifsim/simnet"
 	"connectrpc.com/conformance/internal/verifsim/simquic"
 	"connectrpc.com/conformance/internal/verifsim/simrt"
@@ -72,6 +73,17 @@ const (
 	// Streaming procedures (ClientStream, ServerStream, half-duplex BidiStream)
 	// as steps of c12-matrix, over every instance kind.
 	c12GenStreams = true
+
+	// Server instances created with a *tracer.Tracer (request bodies seen by
+	// the checks are then the tracing wrappers).
+	c12GenTracer = true
+
+	// c12-timeout: a protocol deviation that crosses the header families
+	// (really Connect with Connect-Timeout-Ms while x-expect-protocol says
+	// gRPC / gRPC-Web, or the reverse). See the report: extractTimeout looks
+	// for the header of the EXPECTED protocol, so the real header is neither
+	// judged nor removed and the timeout is enforced by connect-go.
+	c12GenTimeoutCrossFamily = false
 )
 
 // ---------------------------------------------------------------------------
@@ -145,6 +157,8 @@ type c12Server struct {
 	Ver  int  `json:"http_version"`
 	TLS  bool `json:"tls"`
 	Cert bool `json:"client_cert_required"`
+	// created with a *tracer.Tracer (as the runner does with --trace)
+	Tracer bool `json:"with_tracer,omitempty"`
 }
 
 func (s c12Server) String() string {
@@ -156,6 +170,9 @@ func (s c12Server) String() string {
 	}
 	if s.Cert {
 		out += "/cert"
+	}
+	if s.Tracer {
+		out += "+trace"
 	}
 	return out
 }
@@ -172,10 +189,11 @@ func c12DrawServer(tape *simrt.Tape) c12Server {
 	}
 	cert := tape.Bool(1, 2, "server-client-cert")
 	s.Cert = s.TLS && cert
+	s.Tracer = tape.Bool(1, 2, "server-tracer") && c12GenTracer
 	return s
 }
 
-func c12StartServer(s c12Server, printer internal.Printer) (httpServer, error) {
+func c12StartServer(s c12Server, printer internal.Printer, trace *tracer.Tracer) (httpServer, error) {
 	req := &conformancev1.ServerCompatRequest{
 		Protocol:    conformancev1.Protocol_PROTOCOL_CONNECT,
 		HttpVersion: conformancev1.HTTPVersion(s.Ver),
@@ -190,7 +208,7 @@ func c12StartServer(s c12Server, printer internal.Printer) (httpServer, error) {
 			req.ClientTlsCert = c12Certs.clientCert
 		}
 	}
-	server, _, err := createServer(req, "127.0.0.1:0", "", "", true, printer, nil)
+	server, _, err := createServer(req, "127.0.0.1:0", "", "", true, printer, trace)
 	return server, err
 }
 
@@ -316,6 +334,8 @@ type c12Actual struct {
 	Msgs      int    `json:"request_messages,omitempty"`
 	Chunked   bool   `json:"body_of_unknown_length,omitempty"`
 	PlainLast bool   `json:"last_message_not_compressed,omitempty"`
+	// gRPC request without 'te: trailers' (draws protocol feedback)
+	NoTE bool `json:"without_te_trailers,omitempty"`
 }
 
 // c12Expect is what the x-expect-* headers say.
@@ -551,7 +571,7 @@ func c12Build(ctx context.Context, s c12Server, addr string, r *c12Request) (*ht
 			ct += "+" + codecName
 		}
 		hdr.Set("Content-Type", ct)
-		if a.Protocol == 2 {
+		if a.Protocol == 2 && !a.NoTE {
 			hdr.Set("Te", "trailers")
 		}
 		if sendEnc {
@@ -781,6 +801,7 @@ func (n *c12Node) send(r *c12Request) *c12Reply {
 	}
 	if n.env != nil {
 		n.env.planned(r)
+		n.env.initTrace(r)
 	}
 	return c12Do(rt, req, r.Actual.Protocol)
 }
@@ -796,6 +817,27 @@ type c12Env struct {
 	printer *c12Printer
 	cover   map[string]bool
 	simMu   sync.Mutex
+	trace   *tracer.Tracer
+	traced  map[string]bool
+}
+
+// initTrace does what the runner does before a test case is sent.
+func (e *c12Env) initTrace(r *c12Request) {
+	if e.trace == nil {
+		return
+	}
+	e.simMu.Lock()
+	defer e.simMu.Unlock()
+	if r.Name != "" {
+		e.trace.Init(r.Name)
+		e.traced[r.Name] = true
+	}
+	if r.Actual.Method == http.MethodGet {
+		e.res.Probes["connect-get-with-tracer"]++
+	}
+	if r.Actual.Stream != "" {
+		e.res.Probes["stream-with-tracer"]++
+	}
 }
 
 func (e *c12Env) violate(class, format string, args ...any) {
@@ -825,7 +867,12 @@ func c12Frame(t *testing.T, tape *simrt.Tape, body func(e *c12Env)) *simwork.Res
 		simnet.Configure(simnet.Config{Seed: uint64(tape.Choose(1<<20, "netseed")), MaxSegment: 2048, SmallPermil: 250, MaxLatency: 500 * time.Microsecond})
 		env.srv = c12DrawServer(tape)
 		env.printer = &c12Printer{}
-		server, err := c12StartServer(env.srv, env.printer)
+		if env.srv.Tracer {
+			env.trace = &tracer.Tracer{}
+			env.traced = map[string]bool{}
+			res.Probes["server-with-tracer"]++
+		}
+		server, err := c12StartServer(env.srv, env.printer, env.trace)
 		if err != nil {
 			res.Invalid = append(res.Invalid, "createServer: "+err.Error())
 			return
@@ -835,6 +882,14 @@ func c12Frame(t *testing.T, tape *simrt.Tape, body func(e *c12Env)) *simwork.Res
 		defer func() {
 			env.node.close()
 			_ = server.GracefulShutdown(time.Second)
+			names := make([]string, 0, len(env.traced))
+			for n := range env.traced {
+				names = append(names, n)
+			}
+			sort.Strings(names)
+			for _, n := range names {
+				env.trace.Clear(n)
+			}
 		}()
 		body(env)
 		res.End = "done"
@@ -1426,6 +1481,8 @@ func c12GenTimeout(tape *simrt.Tape, protocol int) (*string, string) {
 
 type c12TimeoutCase struct {
 	Request c12Request `json:"request"`
+	Devs    []string   `json:"deviating_aspects,omitempty"`
+	DevMin  int        `json:"lines_required_for_deviation"`
 	Kind    string     `json:"kind"`
 	Verdict c12Verdict `json:"verdict"`
 	Lines   int        `json:"lines_seen"`
@@ -1469,8 +1526,49 @@ func c12TimeoutRun(t *testing.T, tape *simrt.Tape, o simwork.Opts) *simwork.Resu
 			} else {
 				a.DelayMs = uint32(extra % 8)
 			}
+			// independently of the timeout: 0-1 deviating aspect of the matrix and,
+			// for gRPC, the missing 'te: trailers'
+			exp := c12Matching(e.srv, a)
+			var devs []string
+			kDev := 0
+			deviate := tape.Bool(1, 3, "with-deviation")
+			aspectDraw := tape.Choose(len(c12Aspects), "aspect")
+			noTE := tape.Bool(1, 4, "without-te-trailers")
+			if deviate {
+				aspect := c12Aspects[aspectDraw]
+				if aspect == "client-cert" && !e.srv.TLS {
+					aspect = "tls"
+				}
+				if aspect == "protocol" && !c12GenTimeoutCrossFamily {
+					if a.Protocol == 1 {
+						aspect = "codec" // no other protocol uses Connect-Timeout-Ms
+					} else {
+						exp.Protocol = 5 - a.Protocol // gRPC <-> gRPC-Web: same Grpc-Timeout header
+						tape.Choose(1, "expect-protocol")
+						devs = append(devs, aspect)
+						aspect = ""
+					}
+				}
+				if aspect != "" {
+					c12Deviate(tape, aspect, a, &exp)
+					devs = append(devs, aspect)
+				}
+				kDev++
+				e.res.Probes["timeout-with-deviation"]++
+				if exp.Protocol != a.Protocol && (exp.Protocol == 1) != (a.Protocol == 1) {
+					e.res.Probes["timeout-with-cross-family-protocol-deviation"]++
+				}
+			}
+			if noTE && a.Protocol == 2 {
+				a.NoTE = true
+				e.res.Probes["grpc-without-te-trailers"]++
+				if exp.Protocol == 2 {
+					kDev++ // flagged when the protocol itself matches
+				}
+				devs = append(devs, "te-trailers")
+			}
 			name := fmt.Sprintf("C12 Timeout/case-%d", ci+1)
-			r := c12Request{Name: name, Actual: a, Expect: c12Matching(e.srv, a), Timeout: hdr, Data: "payload"}
+			r := c12Request{Name: name, Actual: a, Expect: exp, Timeout: hdr, Data: "payload"}
 			before, allBefore := e.printer.count(name)
 			started := time.Now()
 			rep := e.node.send(&r)
@@ -1478,12 +1576,19 @@ func c12TimeoutRun(t *testing.T, tape *simrt.Tape, o simwork.Opts) *simwork.Resu
 			c12Settle()
 			after, allAfter := e.printer.count(name)
 			delta := after - before
-			tc := c12TimeoutCase{Request: r, Kind: kind, Verdict: verdict, Lines: delta, Reply: rep.String()}
+			tc := c12TimeoutCase{Request: r, Devs: devs, DevMin: kDev, Kind: kind, Verdict: verdict, Lines: delta, Reply: rep.String()}
 			shown := "<absent>"
 			if hdr != nil {
 				shown = strconv.Quote(*hdr)
 			}
 			desc := fmt.Sprintf("server %s, protocol %d, timeout header %s (%s), response delay %d ms", e.srv, a.Protocol, shown, kind, a.DelayMs)
+			if len(devs) > 0 {
+				desc += fmt.Sprintf(", also deviating %v (expect %+v; >= %d line(s) for that)", devs, exp, kDev)
+			}
+			// the deviation clause, as in c12-matrix
+			if delta < kDev {
+				e.violate("c12/missing-feedback", "%s: only %d feedback line(s): %s", desc, delta, e.printer.tail(allBefore))
+			}
 			if allAfter-allBefore != delta {
 				e.violate("c12/spurious-feedback", "%s: feedback not attributable to the test name: %s", desc, e.printer.tail(allBefore))
 			}
@@ -1525,7 +1630,7 @@ func c12TimeoutRun(t *testing.T, tape *simrt.Tape, o simwork.Opts) *simwork.Resu
 			case rep.Err != "":
 				e.violate("c12/request-failed", "%s: transport-level failure: %s", desc, rep)
 			case hdr == nil:
-				if delta != 0 {
+				if delta != 0 && kDev == 0 {
 					e.violate("c12/spurious-feedback", "%s: feedback without a timeout header: %s", desc, e.printer.tail(allBefore))
 				}
 				if echo != nil {
@@ -1537,17 +1642,21 @@ func c12TimeoutRun(t *testing.T, tape *simrt.Tape, o simwork.Opts) *simwork.Resu
 				e.res.Probes["timeout-absent"]++
 			case verdict.Open:
 				e.res.Probes["timeout-open"]++
-				if delta > 0 {
+				switch {
+				case kDev == 0 && delta > 0, kDev > 0 && echo == nil && completed:
 					// treated as rejected
 					if echo != nil {
 						e.violate("c12/timeout-accepted", "%s: feedback reported AND timeout_ms = %d echoed", desc, *echo)
 					}
-				} else {
+					if delta < kDev+1 {
+						e.violate("c12/timeout-accepted", "%s: no timeout echoed, but only %d feedback line(s), not one more than the deviation needs: %s", desc, delta, e.printer.tail(allBefore))
+					}
+				default:
 					checkAccepted()
 				}
 			case verdict.Accept:
 				e.res.Probes["timeout-accepted"]++
-				if delta != 0 {
+				if delta != 0 && kDev == 0 {
 					e.violate("c12/timeout-rejected", "%s: the value follows the grammar (= %d ms) but feedback was reported: %s", desc, verdict.Ms, e.printer.tail(allBefore))
 				}
 				checkAccepted()
@@ -1559,8 +1668,8 @@ func c12TimeoutRun(t *testing.T, tape *simrt.Tape, o simwork.Opts) *simwork.Resu
 				}
 			default:
 				e.res.Probes["timeout-rejected"]++
-				if delta == 0 {
-					e.violate("c12/timeout-accepted", "%s: the value does not follow the grammar but no feedback was reported (echoed timeout_ms: %s)", desc, c12ShowEcho(echo))
+				if delta < kDev+1 {
+					e.violate("c12/timeout-accepted", "%s: the value does not follow the grammar but no feedback line was reported for it (%d line(s) in all; echoed timeout_ms: %s): %s", desc, delta, c12ShowEcho(echo), e.printer.tail(allBefore))
 				}
 				if echo != nil {
 					e.violate("c12/timeout-accepted", "%s: the value does not follow the grammar but timeout_ms = %d is echoed", desc, *echo)
@@ -1576,7 +1685,7 @@ func c12TimeoutRun(t *testing.T, tape *simrt.Tape, o simwork.Opts) *simwork.Resu
 	res.Sample = sample
 	shape := []any{sample.Server}
 	for _, tc := range sample.Cases {
-		shape = append(shape, tc.Kind, tc.Request)
+		shape = append(shape, tc.Kind, tc.Request, tc.Devs)
 	}
 	res.LogHash = c12Hash(shape)
 	res.Steps = len(sample.Cases)
